@@ -223,6 +223,7 @@ type Verifier struct {
 	resStack       [][]*types.Var
 	sweep          bool
 	caseLabel      string
+	obligeHook     func(s *State, g *Term)
 	nQueries       int
 	defArrays      []*winInfo
 	refRank        map[string]int
@@ -247,6 +248,17 @@ func (v *Verifier) oblige(s *State, class, label string, goal *Term, p token.Pos
 		return
 	}
 	if goal.isTrue() {
+		return
+	}
+	if v.obligeHook != nil {
+		v.obligeHook(s, goal)
+		return
+	}
+	// a conjunction is proved conjunct by conjunct
+	if goal.Op == "and" && !goal.IsLit && len(goal.Args) > 1 && class != "vacuity" {
+		for i, g := range goal.Args {
+			v.oblige(s, class, fmt.Sprintf("%s.%c", label, 'a'+rune(i%26)), g, p, desc)
+		}
 		return
 	}
 	// syntactic discharge: goal literally among assumptions
@@ -759,7 +771,15 @@ func (v *Verifier) olderThan(s *State, t *Term) (int, bool) {
 }
 
 func isFieldBase(t *Term) bool {
-	return t.Op == "-" && len(t.Args) == 1 && t.Args[0].Op == "+"
+	if t.Op != "+" || t.IsLit {
+		return false
+	}
+	for _, a := range t.Args {
+		if a.Op == "*" && len(a.Args) == 2 && a.Args[0].isInt() && a.Args[0].Int.Cmp(big.NewInt(-64)) == 0 {
+			return true
+		}
+	}
+	return false
 }
 
 // distinctRefs: certainly different references, using allocation order.
